@@ -367,4 +367,7 @@ def load_settings(args: list[str]) -> Settings:
 
         config_file = Settings()  # pragma: no cover
 
+    except OSError as ex:
+        raise ValueError(f'refurb: "{file}" cannot be read: {ex}') from ex
+
     return Settings.merge(config_file, cli_args)
